@@ -920,3 +920,69 @@ func Glob(pattern string) ([]string, error) {
 	}
 	return out, nil
 }
+
+// ---------------------------------------------------------------- crash states
+
+// TornCuts returns the byte counts at which a write of the given mutation is
+// considered torn: every 256-byte boundary relative to the file offset, a few
+// unaligned cuts, and (for small in-place files) every byte.
+func TornCuts(m *Mut) []int {
+	L := len(m.Data)
+	if m.Op != "write" || L <= 1 {
+		return nil
+	}
+	set := map[int]bool{}
+	add := func(c int) {
+		if c > 0 && c < L {
+			set[c] = true
+		}
+	}
+	small := strings.HasSuffix(m.Path, ".yaml") || strings.HasSuffix(m.Path, ".txt")
+	if small || L <= 64 {
+		for c := 1; c < L; c++ {
+			add(c)
+		}
+	} else {
+		first := int((256 - m.Off%256) % 256)
+		for c := first; c < L; c += 256 {
+			add(c)
+		}
+		for _, c := range []int{1, 23, 24, 25, 26, L - 1, L - 2, 255, 257} {
+			add(c)
+		}
+	}
+	out := make([]int, 0, len(set))
+	for c := range set {
+		out = append(out, c)
+	}
+	sort.Ints(out)
+	return out
+}
+
+// CrashStates materialises, on top of base (not modified), every SIGKILL
+// crash state of the mutation log: S_k = first k mutations applied (k=0..n),
+// and for every write mutation its torn variants. visit returns false to stop.
+// The state handed to visit is owned by the callee (a private clone).
+func CrashStates(base *FS, log []Mut, visit func(k int, cut int, st *FS) bool) {
+	st := base.Clone()
+	for k := 0; k <= len(log); k++ {
+		if !visit(k, -1, st.Clone()) {
+			return
+		}
+		if k == len(log) {
+			return
+		}
+		m := &log[k]
+		for _, c := range TornCuts(m) {
+			t := st.Clone()
+			t.Apply(m, c)
+			if !visit(k, c, t) {
+				return
+			}
+		}
+		st.Apply(m, -1)
+	}
+}
+
+// StartLog clears the mutation log (subsequent mutations are logged from index 0).
+func (f *FS) StartLog() { f.Log = nil }
